@@ -5,7 +5,7 @@
    session); servers in every mode with session tickets disabled.  Chain verification is the abstract predicate
    "certificate id is in c_trusted / s_client_trusted" (what Verify returns at the configured time, name, roots). *)
 From Coq Require Import List NArith Arith Bool Lia.
-From GmsmVerif Require Import Lib.Outcome HS.HSTerms HS.HSModel HS.HSProofs HS.HSClientFlight HS.HSServerFlight HS.HSAuth HS.HSNames.
+From GmsmVerif Require Import Lib.Outcome HS.HSTerms HS.HSModel HS.HSProofs HS.HSClientFlight HS.HSTlsClientFlight HS.HSServerFlight HS.HSAuth HS.HSAuth2 HS.HSNames.
 Import ListNotations.
 Local Open Scope N_scope.
 
@@ -135,6 +135,62 @@ Theorem C08_server_name_match_is_label_by_label : forall pattern host,
 Proof. exact match_hostnames_labels. Qed.
 Print Assumptions C08_server_name_match_is_label_by_label.
 
+(* 6. The standard-TLS client (handshake_client.go), verification on, no cached session, for EVERY delivered sequence:
+   completion requires a ServerHello with an implemented TLS version and an offered suite; a certificate list that parses
+   whose leaf Verify accepted for the requested name; for RSA suites an RSA leaf and the pre-master secret sent encrypted to
+   the CERTIFICATE's key (a ServerKeyExchange is rejected); for ECDHE suites a ServerKeyExchange whose signature verifies
+   under the leaf's key over this session's randoms and the parameters, the pre-master secret being bound to those
+   parameters; and a Finished equal to PRF(master, "server finished", Hash(transcript of this session)). *)
+Theorem C08_tls_client_complete_requires : forall cfg ins st',
+  c_gm cfg = false -> c_verify cfg = true -> c_session cfg = None ->
+  client_run cfg ins = RComplete st' -> tls_client_requirements cfg ins st'.
+Proof. exact tls_client_complete_requires. Qed.
+Print Assumptions C08_tls_client_complete_requires.
+
+(* 7. Resumption.  The ticket gate at term level (idealised as in coq/Resume, C16_ticket_gate: a ticket opens exactly when
+   it is what encryptTicket produced under the configured key for the returned state): *)
+Theorem C08_ticket_gate : forall key t st, decryptTicket key t = Some st <-> t = encryptTicket key st.
+Proof. exact ticket_gate. Qed.
+Print Assumptions C08_ticket_gate.
+
+(* GMSSL client WITH a cached session: every completion is either a full handshake meeting all of client_requirements, or a
+   resumption: the ServerHello echoes the session id of the cached session with its suite, and the Finished received is
+   PRF(CACHED master secret, "server finished", Hash(transcript of this connection)) - only a peer that knows the master
+   secret of the original, authenticated session can produce it (C08_finished_needs_master). *)
+Theorem C08_client_complete_requires_with_resumption : forall cfg ins st',
+  c_gm cfg = true -> c_verify cfg = true -> ecc_only cfg ->
+  client_run cfg ins = RComplete st' ->
+  client_requirements cfg ins st' \/ client_resumed_requirements cfg ins st'.
+Proof. exact gm_client_complete_requires_general. Qed.
+Print Assumptions C08_client_complete_requires_with_resumption.
+
+(* Servers, tickets ON: every completion is a full handshake (then C08_server_complete_requires' flight follows the
+   ClientHello), or a resumption: the ticket the client sent is encryptTicket(ticket key, state) for a state carrying the
+   version, an offered suite, a master secret and certificates; the ClientAuth policy is applied to, and the chain check
+   repeated on, the stored certificates; and the client's Finished is PRF(THAT master secret, "client finished",
+   Hash(transcript of this connection)). *)
+Theorem C08_server_complete_requires_with_resumption : forall cfg ins st',
+  server_run cfg ins = RComplete st' ->
+  (exists ch st1, server_handshake_step cfg (ss_set_warn server_init 0) (MClientHello ch) = (st1, SContinue) /\
+                  ss_resumed st1 = false /\ In (IHs (MClientHello ch)) ins) \/
+  server_resumed_requirements cfg ins st'.
+Proof. exact server_complete_requires_general. Qed.
+Print Assumptions C08_server_complete_requires_with_resumption.
+
+(* ... and against the network attacker: tickets cannot be forged, and a Finished keyed with a master secret the attacker
+   cannot derive was computed by a party that knows it *)
+Theorem C08_ticket_unforgeable : forall AK own (K : term -> Prop) key t st,
+  derives AK own K t -> decryptTicket key t = Some st -> AK key = false ->
+  exists u, K u /\ sub (TSig key st) u.
+Proof. exact ticket_unforgeable. Qed.
+Print Assumptions C08_ticket_unforgeable.
+
+Theorem C08_finished_needs_master : forall AK own (K : term -> Prop) fp ms label tr,
+  derives AK own K (finished_sum fp ms label tr) -> ~ derives AK own K ms ->
+  exists u, K u /\ sub (finished_sum fp ms label tr) u.
+Proof. exact finished_needs_master. Qed.
+Print Assumptions C08_finished_needs_master.
+
 (* ---- non-vacuity ----------------------------------------------------------------------------------------- *)
 Definition ex_sig := TCert 1 KIND_SM2 KU_SIGN 101.
 Definition ex_enc := TCert 2 KIND_SM2 KU_ENC 102.
@@ -210,3 +266,29 @@ Example C08_server_name_examples :
   match_hostnames s_wild ([97;46] ++ skipn 2 s_wild ++ [46;101;118;105;108;46;116;101;115;116]) = false /\
   match_hostnames s_wild ([120] ++ skipn 2 s_wild) = false.
 Proof. vm_compute. repeat split; reflexivity. Qed.
+
+(* TLS client and resumption: the honest runs meet the hypotheses (RSA and ECDHE suites, TLS 1.0-1.2; a second
+   connection resuming the first one's session) *)
+Definition ex_rsa := TCert 4 KIND_RSA 3 104.
+Definition ex_tls_client (maxv : N) (suites : list N) : cconfig := mkCC false maxv suites true [4] None false None 11 12 13 14.
+Definition ex_tls_server : sconfig := mkSC TLSOnly None false 0 [] [] (Some (ex_rsa, 104)) true 200 false 21 22 23.
+Example C08_tls_honest_runs :
+  forallb (fun cfg => match pair_run cfg ex_tls_server with ((_, PDone), (_, PDone)) => true | _ => false end)
+          [ex_tls_client 771 [47]; ex_tls_client 771 [49172]; ex_tls_client 769 [47]; ex_tls_client 770 [49172];
+           ex_tls_client 771 [49199]] = true.
+Proof. vm_compute. reflexivity. Qed.
+
+Definition ex_resuming_pair : pstat * pstat * bool :=
+  let srv := mkSC GMOnly None false 0 [3] [(ex_sig, 101); (ex_enc, 102)] None true 200 false 21 22 23 in
+  let cl := mkCC true 771 [57363] true [1; 2] None true None 11 12 13 14 in
+  match pair_run cl srv with
+  | ((c, PDone), (s, PDone)) =>
+      let ticket := encryptTicket 200 (session_state (ss_vers s) (ss_suite s) (ss_master s) (ss_peer s)) in
+      let cl2 := mkCC true 771 [57363] true [1; 2] None true (Some (ticket, ss_suite s, cs_master c)) 41 42 43 44 in
+      match pair_run cl2 (mkSC GMOnly None false 0 [3] [(ex_sig, 101); (ex_enc, 102)] None true 200 false 51 52 53) with
+      | ((c2, a), (s2, b)) => (a, b, cs_resumed c2 && ss_resumed s2 && term_eqb (cs_master c2) (cs_master c))
+      end
+  | _ => (PFailed, PFailed, false)
+  end.
+Example C08_resumption_runs : ex_resuming_pair = (PDone, PDone, true).
+Proof. vm_compute. reflexivity. Qed.
